@@ -66,6 +66,18 @@ theorem C11_wait_accounting {f : Bool} {es : List Ev} {s : State} {l : ALog}
   simp only [List.count_append]
   exact this x
 
+/-- If no waiter ever took itself out of the queue (no `wait()` was cancelled before being
+notified), events are set in exactly the order in which the `wait()` calls queued them:
+set ++ still queued = queued-in-order. -/
+theorem C11_order_exact {f : Bool} {es : List Ev} {s : State} {l : ALog}
+    (h : runALog (init f) {} es = some (s, l)) (hleft : l.left = []) :
+    l.n.sig ++ s.waiters = l.n.wq := by
+  have hsub : (l.n.sig ++ s.waiters).Sublist l.n.wq := ninv_runA es (inv_init f) (ninv_init f) h
+  have hlen := (C11_wait_accounting h).length_eq
+  apply hsub.eq_of_length_le
+  simp only [hleft, List.append_nil, List.length_append] at hlen ⊢
+  omega
+
 /-- `leftQueue` means what it says: a queued event that is neither queued nor set afterwards -/
 theorem C11_leftQueue_sound {s s' : State} {u : Nat} (h : u ∈ leftQueue s s') :
     u ∈ s.waiters ∧ u ∉ s'.waiters ∧ isSet (s'.cpc u) = false := by
